@@ -21,7 +21,7 @@ HERE = os.path.dirname(os.path.abspath(__file__))
 VERIF = os.path.dirname(HERE)
 sys.path.insert(0, HERE)
 import weave  # noqa: E402
-from rustscan import AnchorError  # noqa: E402
+from rustscan import AnchorError, split_args  # noqa: E402
 
 REPO = os.environ.get('VERIF_REPO', '/repo')
 
@@ -73,7 +73,7 @@ class Universe:
             for b in blocks:
                 fnpath = None
                 if b['directive'] in ('fn', 'loop', 'before', 'after', 'inline', 'inline-after', 'body-start', 'loop-body', 'loop-end'):
-                    fnpath = b['args'].split()[0]
+                    fnpath = split_args(b['args'])[0]
                 if b['directive'] == 'fn':
                     m = re.search(r'nopanic=([A-Z0-9,]+)', b['args'])
                     self.contracted[(fname, fnpath)] = True
